@@ -37,6 +37,8 @@ SCENARIOS = {
     'three-way-tie-at-zero': [[ev('n', 0, 1)], [ev('n', 0, 2)], [ev('n', 0, 3), ev('n', 0, 4)]],
     'meta-and-messages': [[ev('tempo', 0, 1), ev('n', 5, 2)], [ev('n', 5, 3), ev('tempo', 0, 4), ev('eot', 1)]],
     'tie-order-is-track-order-not-type-order': [[ev('tempo', 5, 1), ev('n', 0, 2)], [ev('n', 5, 3)], [ev('eot', 5), ev('n', 0, 4)]],
+    'adjacent-eots-both-nonzero': [[ev('n', 2, 1), ev('eot', 3), ev('eot', 4)], [ev('n', 1, 2)]],
+    'eots-of-two-tracks-adjacent-in-merge': [[ev('n', 1, 1), ev('eot', 9)], [ev('n', 2, 2), ev('eot', 20)], [ev('n', 40, 3)]],
     'later-track-earlier-times': [[ev('n', 20, 1)], [ev('n', 5, 2), ev('n', 5, 3)], [ev('n', 1, 4), ev('eot', 30)]],
 }
 
@@ -143,7 +145,7 @@ def r12_scenarios(ctx):
             ctx.require(untouched, 'R12.4', f'{inst}.inputs', w, 'merge_tracks modifies its input tracks or messages', construct=cons + '::inputs-modified')
             fresh = all(not any(x is m for m in holder['msgs']) or x.attrs.get('time') == m_time(holder, x) for x in items)
             ctx.require(fresh, 'R12.4', f'{inst}.aliasing', w, 'an input message appears in the result with a changed time', construct=cons + '::aliasing')
-    ctx.floor('R12.1', n, 20)
+    ctx.floor('R12.1', n, 24)
     for q in ai.inlined:
         ctx.functions.add(q)
 
